@@ -86,8 +86,20 @@ def check_selection(ctx):
                     _canon(bloop, s.targets[0].slice) == "IDX":
                 elem = s.value
     if elem is None:
-        ctx.undecided("R15.1", "element expression of _calculate_distances_of_batch", batch.node, batch,
-                      "no `<returned list>[index] = ...` found", construct="def _calculate_distances_of_batch")
+        # not written row by row: is a distance computed from the whole batch at once?
+        whole = [c for c in ast.walk(batch.node) if isinstance(c, ast.Call) and
+                 ast.unparse(c.func).split(".")[-1] in ("cdist", "pdist", "pairwise_distances") and
+                 any(isinstance(a, ast.Name) and a.id == batch.params[1] for a in c.args)]
+        if whole:
+            ctx.violate("R15.1", "_NeighborsSimulator computes the cached distances of a row from that row and the "
+                        "history only", whole[0], batch,
+                        "`%s` is given the whole batch: for data-dependent metrics (seuclidean, mahalanobis) the "
+                        "distances of a row then depend on the other rows of the chunk, while the library computes "
+                        "cdist(self.contexts, <row>) per row" % ast.unparse(whole[0]),
+                        construct="def _calculate_distances_of_batch")
+        else:
+            ctx.undecided("R15.1", "element expression of _calculate_distances_of_batch", batch.node, batch,
+                          "no `<returned list>[index] = ...` found", construct="def _calculate_distances_of_batch")
         return
     elem_x = _canon(bloop, elem)
     n = 0
@@ -147,29 +159,48 @@ def _inline(loop, expr, stop=None):
     return R().visit(copy.deepcopy(expr))
 
 
+def _bandit_var(node):
+    """name of the bandit variable of the enclosing `for <name>, <bandit> in self.bandits` loop"""
+    g = parent(node)
+    while g is not None:
+        if isinstance(g, ast.For) and ast.unparse(g.iter) == "self.bandits" and isinstance(g.target, ast.Tuple) \
+                and len(g.target.elts) == 2 and isinstance(g.target.elts[1], ast.Name):
+            return g.target.elts[1].id
+        g = parent(g)
+    return None
+
+
+def _bandit_calls(fn, meth):
+    """calls <bandit>.<meth>(...) where <bandit> is the loop variable over self.bandits"""
+    out = []
+    for c in ast.walk(fn.node):
+        if isinstance(c, ast.Call) and isinstance(c.func, ast.Attribute) and c.func.attr == meth and \
+                isinstance(c.func.value, ast.Name) and c.func.value.id == _bandit_var(c):
+            out.append(c)
+    return out
+
+
 def check_drivers(ctx):
     prog = ctx.prog
     n = 0
     for cname, meth in DRIVERS:
         fn = prog.method(cname, meth)
         ctx.saw_fn(fn)
-        calc = [c for c in ast.walk(fn.node) if isinstance(c, ast.Call) and
-                ast.unparse(c.func) == "mab.calculate_distances"]
-        setd = [c for c in ast.walk(fn.node) if isinstance(c, ast.Call) and
-                ast.unparse(c.func) == "mab.set_distances"]
+        calc = _bandit_calls(fn, "calculate_distances")
+        setd = _bandit_calls(fn, "set_distances")
         if not calc or not setd:
             ctx.undecided("R15.2", "%s: distance cache calls not found" % meth, fn.node, fn,
                           construct="def %s" % meth)
             continue
         for c in calc:
             n += 1
+            mab = c.func.value.id
             arg = ast.unparse(c.args[0])
             # the enclosing isinstance branch and the predict that follows
             br = parent(c)
-            while br is not None and not (isinstance(br, ast.If) and "isinstance(mab" in ast.unparse(br.test)):
+            while br is not None and not (isinstance(br, ast.If) and ("isinstance(%s" % mab) in ast.unparse(br.test)):
                 br = parent(br)
-            preds = [p for p in ast.walk(br) if isinstance(p, ast.Call) and ast.unparse(p.func) == "mab.predict"] \
-                if br is not None else []
+            preds = [p for p in _bandit_calls(fn, "predict") if br is not None and any(x is p for x in ast.walk(br))]
             same = bool(preds) and all(ast.unparse(p.args[0]) == arg for p in preds)
             reassigned = False
             if br is not None:
@@ -182,14 +213,15 @@ def check_drivers(ctx):
         # R15.3 metric guard
         for c in calc + setd:
             n += 1
+            mab = c.func.value.id
             stmt = parent(c)
-            if ast.unparse(c.func) == "mab.calculate_distances":
+            if c.func.attr == "calculate_distances":
                 tgt = stmt.targets[0] if isinstance(stmt, ast.Assign) else None
-                keyed = isinstance(tgt, ast.Subscript) and "mab.metric" in ast.unparse(tgt.slice)
+                keyed = isinstance(tgt, ast.Subscript) and ("%s.metric" % mab) in ast.unparse(tgt.slice)
                 what = "stored under"
             else:
                 a0 = c.args[0]
-                keyed = isinstance(a0, ast.Subscript) and "mab.metric" in ast.unparse(a0.slice)
+                keyed = isinstance(a0, ast.Subscript) and ("%s.metric" % mab) in ast.unparse(a0.slice)
                 what = "taken from"
             guarded = False
             g = parent(c)
@@ -200,7 +232,7 @@ def check_drivers(ctx):
             ctx.check(keyed or guarded, "R15.3", "%s: the shared distance list is %s the bandit's metric" %
                       (meth, what), c, fn,
                       "distances computed with one bandit's metric can reach a bandit configured with another "
-                      "metric: the cache is neither keyed by mab.metric nor guarded by a metric comparison")
+                      "metric: the cache is neither keyed by the bandit's metric nor guarded by a metric comparison")
     ctx.floor("R15.2", "driver cache sites", n, 6)
 
 
@@ -412,15 +444,23 @@ def check_protocol(ctx):
     if outer:
         body = outer[-1].body
         chunk_i = pf_i = None
+        preds = _bandit_calls(on, "predict")
+        pfs = [c for c in _bandit_calls(on, "partial_fit") if any(x is c for x in ast.walk(outer[-1]))]
         for i, s in enumerate(body):
-            src = ast.unparse(s)
-            if isinstance(s, ast.For) and "mab.predict(" in src and chunk_i is None:
+            if isinstance(s, ast.For) and any(x is p for p in preds for x in ast.walk(s)) and chunk_i is None:
                 chunk_i = i
-            if isinstance(s, ast.For) and "mab.partial_fit(" in src:
+            if isinstance(s, ast.For) and any(x is p for p in pfs for x in ast.walk(s)):
                 pf_i = i
         ok2 = chunk_i is not None and pf_i is not None and chunk_i < pf_i
-        pfs = [c for c in ast.walk(outer[-1]) if isinstance(c, ast.Call) and ast.unparse(c.func) == "mab.partial_fit"]
-        args_ok = all([ast.unparse(a) for a in c.args][:2] == ["batch_decisions", "batch_rewards"] for c in pfs)
+        # the batch handed to partial_fit is the batch that was just predicted: the same slices of the test data
+        bd = [s for s in ast.walk(outer[-1]) if isinstance(s, ast.Assign) and isinstance(s.targets[0], ast.Name)]
+        defs = {s.targets[0].id: s.value for s in bd}
+
+        def src(a):
+            return ast.unparse(defs[a.id]) if isinstance(a, ast.Name) and a.id in defs else ast.unparse(a)
+        args_ok = all(len(c.args) >= 2 and src(c.args[0]).startswith("test_decisions[") and
+                      src(c.args[1]).startswith("test_rewards[") and
+                      src(c.args[0]).split("[", 1)[1] == src(c.args[1]).split("[", 1)[1] for c in pfs)
         ok2 = ok2 and args_ok and bool(pfs)
         detail = "predict loop at %s, partial_fit loop at %s" % (chunk_i, pf_i)
     ctx.check(ok2, "R15.7", "online: all predictions of a batch precede partial_fit on that batch", on.node, on, detail,
@@ -432,7 +472,7 @@ def check_protocol(ctx):
               "Simulator converts its data with the facade's converters", init.node, init,
               construct="def Simulator.__init__")
     tb = prog.method("Simulator", "_train_bandits")
-    fits = [c for c in ast.walk(tb.node) if isinstance(c, ast.Call) and ast.unparse(c.func) == "mab.fit"]
+    fits = _bandit_calls(tb, "fit")
     ctx.check(len(fits) == 2 and all(ast.unparse(c.args[0]) == "train_decisions" for c in fits), "R15.7",
               "every bandit is fit on the training rows", tb.node, tb, construct="def Simulator._train_bandits")
 
